@@ -173,19 +173,43 @@ var packedUnits = []string{`(?:ab){0,2}?`, `(?:ab){0,2}`, `(?:x)??`, `(?:x)?`, `
 
 func packedPattern(r *rng) (string, []string) {
 	u := packedUnits[r.n(len(packedUnits))]
+	v := u
+	if r.chance(1, 2) {
+		// two units taking turns: adjacent copies of one single-character unit are merged by the tree reducer
+		v = []string{"b??", "b*?", "(?:y)??", "b?", "[bc]{0,2}?", packedUnits[r.n(len(packedUnits))]}[r.n(6)]
+	}
 	k := 1 + r.n(12)
 	if r.chance(1, 4) {
-		k += r.n(20)
+		k += r.n(40)
+	}
+	loopBody := r.chance(1, 6)
+	if loopBody {
+		// the body must be able to match without consuming the literal that drives the iterations
+		opt := []string{`(?:ab){0,2}?`, `(?:ab){0,2}`, `(?:x)??`, `(?:x)?`, `(?<n>a)?`, `(?!b)`, `(?>a|b)?`, `(?:ab|a)??`, `a*?`, `(?i:a)??`, `()`, `a*`, `b?`, `a??`, `b??`, `[ab]{0,2}?`}
+		u, v = opt[r.n(len(opt))], opt[r.n(len(opt))]
+		if r.chance(2, 3) {
+			k = 12 + r.n(40) // a long pass per iteration
+		}
 	}
 	p := ""
 	for i := 0; i < k; i++ {
-		if r.chance(1, 6) {
+		if r.chance(1, 8) && !loopBody {
 			p += packedUnits[r.n(len(packedUnits))]
-		} else {
+		} else if i%2 == 0 {
 			p += u
+		} else {
+			p += v
 		}
 	}
-	switch r.n(6) {
+	form := r.n(6)
+	if loopBody {
+		form = 6
+	}
+	switch form {
+	case 6:
+		// the train plus a consuming literal as the body of a loop: every pass pushes the train's frames again
+		// (the marker "\x00loop" tells the caller to build an input of that literal)
+		return "(?:" + p + "c)*" + []string{"d", "", "$"}[r.n(3)], []string{"\x00loop", "c", "cc", "d", "ccd", "a"}
 	case 0:
 		p = "(?:" + p + ")*"
 	case 1:
@@ -216,7 +240,8 @@ func genC13(seed uint64, tier string) *Scenario {
 	var spec ReSpec
 	var in InputSpec
 	var frags []string
-	switch x := r.n(10); {
+	// 0-3 random ASTs, 4 and 7 packed straight-line passes, 5-6 deep shapes, 8-9 corpus, 10-12 the special families
+	switch x := r.n(13); {
 	case x < 4:
 		spec = ReSpec{Pat: randPattern(r), Opts: []int{0, 0, 0, oI, oM, oS, oRTL, oRE2, oE}[r.n(9)]}
 		in = lit(randABC(r, r.n(40)))
@@ -224,7 +249,7 @@ func genC13(seed uint64, tier string) *Scenario {
 			in = InputSpec{Pre: randABC(r, r.n(6)), Unit: randABC(r, 1+r.n(3)), Rep: 10 + r.n(200), Suf: randABC(r, r.n(4))}
 		}
 		frags = []string{"a", "b", "c", "ab", "abc", ""}
-	case (x == 4 || x == 7) && r.chance(1, 5):
+	case x == 10:
 		// a train of back-references to one non-empty capture, no loop in between: whatever a reference
 		// pushes is not separated from the next one's by a capacity check
 		grp := []string{`(ab)`, `(a)`, `(?<n>ab)`, `(a|ab)`, `(b?a)`}[r.n(5)]
@@ -243,7 +268,7 @@ func genC13(seed uint64, tier string) *Scenario {
 			in.Rep = r.n(k + 1)
 		}
 		frags = []string{"a", "b", "c", "ab", "abab", ""}
-	case (x == 4 || x == 7) && r.chance(1, 6):
+	case x == 11:
 		// large programs rather than long inputs: deep nesting, wide alternations, big {n} expansions -- the
 		// instruction count (and with it the reserve) is large next to any small L
 		k := 20 + r.n(280)
@@ -269,7 +294,7 @@ func genC13(seed uint64, tier string) *Scenario {
 		spec = ReSpec{Pat: p, Opts: []int{0, 0, oRTL, oI, oN}[r.n(5)]}
 		in = InputSpec{Pre: randABC(r, r.n(3)), Unit: []string{"a", "ab", "aab", "b"}[r.n(4)], Rep: 1 + r.n(k+20), Suf: []string{"", "c", "b"}[r.n(3)]}
 		frags = []string{"a", "b", "ab", "c", "aab", ""}
-	case (x == 4 || x == 7) && r.chance(1, 4):
+	case x == 12:
 		// a chain of single-character loops over different letters, every one of which matches something in
 		// one pass: left to right, right to left, and right to left inside a lookbehind
 		k := 2 + r.n(15)
@@ -311,6 +336,13 @@ func genC13(seed uint64, tier string) *Scenario {
 			t += fr[r.n(len(fr))]
 		}
 		in = lit(t)
+		if t != "" && r.chance(1, 3) {
+			in = InputSpec{Unit: t, Rep: 2 + r.n(40)} // several passes when the train sits inside a loop
+		}
+		if fr[0] == "\x00loop" {
+			frags = fr[1:]
+			in = InputSpec{Unit: "c", Rep: 1 + r.n(12), Suf: []string{"d", "", "cd"}[r.n(3)]}
+		}
 	case x < 7:
 		spec = ReSpec{Pat: deepPats[r.n(len(deepPats))]}
 		if r.chance(1, 6) {
